@@ -8,6 +8,7 @@ import re
 from vlib import core, sx
 from checks import enginelib as E
 from checks import histlib as H
+from vlib import proggen as pg
 
 try:
     THEOREMS = re.findall(r"^Theorem\s+(\w+)", open(os.path.join(core.COQ, "Props", "C12.v")).read(), re.M)
@@ -110,9 +111,11 @@ SOLVERS = [("slg", H.SLG), ("rec", H.REC)]
 def solver_part(ctx):
     rng = ctx.rng
     progs = H.programs(rng, ctx.n(3, 20), goals_per=(2, 1, 1))
+    progs = [(p, t, g, gt, SOLVERS, False) for (p, t, g, gt) in progs]
+    progs += [(p, pg.to_text(p), g, [pg.goal_text(x) for x in g], cfgs, True) for (p, g, cfgs) in H.sweep_programs()]
     c1, i1 = [], []
-    for pi, (p, text, goals, gts) in enumerate(progs):
-        for sname, solver in SOLVERS:
+    for pi, (p, text, goals, gts, solvers, sweep_all) in enumerate(progs):
+        for sname, solver in solvers:
             for gi, gt in enumerate(gts):
                 i1.append((pi, sname, gi))
                 c1.append(H.case(text, solver, [H.solve_step(gt)]))
@@ -123,14 +126,14 @@ def solver_part(ctx):
             fresh[key] = r[0]["ans"]
             calls[key] = r[0]["db"]
     c2, i2 = [], []
-    for pi, (p, text, goals, gts) in enumerate(progs):
-        for sname, solver in SOLVERS:
+    for pi, (p, text, goals, gts, solvers, sweep_all) in enumerate(progs):
+        for sname, solver in solvers:
             for gi, gt in enumerate(gts):
                 N = calls.get((pi, sname, gi))
                 if not N or H.is_death(fresh[(pi, sname, gi)]):
                     continue
                 ns = list(range(min(N, ctx.n(200, 200))))
-                if ctx.quick and len(ns) > 7:
+                if ctx.quick and len(ns) > 7 and not sweep_all:
                     stride = max(1, len(ns) // 4)
                     ns = sorted(set([0, 1, len(ns) - 1] + ns[::stride]))
                 for k in ns:
@@ -144,7 +147,7 @@ def solver_part(ctx):
     r2, outs = H.run(c2, timeout=ctx.n(900, 3000))
     per_pair = {}
     for (pi, sname, gi, ks), r, raw, cs in zip(i2, r2, outs, c2):
-        p, text, goals, gts = progs[pi]
+        p, text, goals, gts, _solvers, _sweep = progs[pi]
         pair = per_pair.setdefault((pi, sname), {"viol": None, "known": None, "incon": 0, "n": 0})
         if r is None:
             pair["incon"] += 1
@@ -165,11 +168,11 @@ def solver_part(ctx):
             if a != fa and pair["viol"] is None:
                 hist = order[:j + 1]
                 cls = None
-                if sname == "slg" and H.f7_class(p, goals, hist):
+                if sname.startswith("slg") and H.f7_class(p, goals, hist):
                     cls = "F7-slg-coinductive-cycle"
-                elif sname == "slg" and H.f16_class(p, goals[g]):
+                elif sname.startswith("slg") and H.f16_class(p, goals[g]):
                     cls = "F16-slg-answer-order"
-                elif sname == "rec" and H.mixed_class(p, goals):
+                elif sname.startswith("rec") and H.mixed_class(p, goals):
                     cls = "F27-mixed-cycle"
                 rec = {"kind": "solver-crash", "program": text, "solver": sname, "crashed_goal": gts[gi], "db_call": list(ks),
                        "step": j, "goal": gts[g], "answer": sx.to_sexp(a), "fresh_answer": sx.to_sexp(fa),
